@@ -5,7 +5,7 @@
    computes a canonical form: two groups that are equal up to sibling order sort to
    element-wise equal lists. *)
 From Coq Require Import List NArith Arith Bool Lia Permutation Sorted.
-From HV Require Import Base.Res Base.Str Model.Defs Proofs.DefsProofs.
+From HV Require Import Base.Res Base.Str Gen.C09Fold Model.Defs Proofs.DefsProofs.
 From HV Require Model.Dups Proofs.DupsProofs.
 Import ListNotations.
 
@@ -36,11 +36,39 @@ Proof.
   destruct (H 41%N ltac:(lia)) as [-> ->]. reflexivity.
 Qed.
 
+(* the generated casefold table never touches a delimiter and never folds to nothing *)
+Definition fold_entry_ok (e : N * list N) : bool :=
+  negb (DP.is_delim (fst e)) && negb (DM.null (snd e)) && forallb (fun c => negb (DP.is_delim c)) (snd e).
+
+Lemma fold_table_ok : forallb fold_entry_ok c09_fold_table = true.
+Proof. vm_compute. reflexivity. Qed.
+
+Lemma assoc_fold_in c tb l : assoc_fold c tb = Some l -> In (c, l) tb.
+Proof.
+  induction tb as [|[k l'] tb IH]; cbn [assoc_fold]; [discriminate|].
+  destruct (N.eqb c k) eqn:E; [|intro H; right; auto].
+  intro H. inversion H; subst. apply N.eqb_eq in E. subst. left. reflexivity.
+Qed.
+
+Lemma fold_c_ok c :
+  DM.null (fold_c c) = false /\
+  forallb (fun x => negb (DP.is_delim x)) (fold_c c) = negb (DP.is_delim c).
+Proof.
+  unfold fold_c. destruct (assoc_fold c c09_fold_table) as [l|] eqn:E.
+  - apply assoc_fold_in in E. pose proof fold_table_ok as Hk. rewrite forallb_forall in Hk.
+    specialize (Hk _ E). unfold fold_entry_ok in Hk. cbn [fst snd] in Hk.
+    apply andb_true_iff in Hk as [Hk H3]. apply andb_true_iff in Hk as [H1 H2].
+    apply negb_true_iff in H2. rewrite H1, H2, H3. split; reflexivity.
+  - cbn. rewrite lower_c_delim, andb_true_r. split; reflexivity.
+Qed.
+
 Lemma wf_text_lower s : wf_text (lower s) = wf_text s.
 Proof.
   unfold wf_text, DP.wf_name, lower. f_equal.
-  - destruct s; reflexivity.
-  - induction s as [|c s IH]; [reflexivity|]. cbn [map forallb]. rewrite lower_c_delim, IH. reflexivity.
+  - f_equal. destruct s as [|c s]; [reflexivity|]. cbn [flat_map].
+    destruct (fold_c_ok c) as [Hn _]. destruct (fold_c c); [discriminate | reflexivity].
+  - induction s as [|c s IH]; [reflexivity|]. cbn [flat_map forallb]. rewrite forallb_app, IH.
+    destruct (fold_c_ok c) as [_ Hd]. rewrite Hd. reflexivity.
 Qed.
 
 Lemma wfc_cn n : DP.wfc (cn n) = wft n.
@@ -60,7 +88,7 @@ Qed.
 (* ------------------------------------------------------------------ the sort key is the canonical key *)
 
 Lemma lower_app a b : lower (a ++ b) = lower a ++ lower b.
-Proof. apply map_app. Qed.
+Proof. apply flat_map_app. Qed.
 
 Lemma lower_join sep l : lower (join sep l) = join (lower sep) (map lower l).
 Proof.
